@@ -49,9 +49,8 @@ fn blocks_big(rng: &mut Rng) -> bool { rng.chance(1, 6) }
 pub struct Decoded { pub out: &'static str, pub hdr: Value, pub prod: Value, pub end: u64, pub detail: String }
 
 pub fn decode(bytes: &[u8]) -> Decoded {
-    let mut cur = Cursor::new(bytes);
-    let r = guarded(|| decode_digital_radar_data(&mut cur));
-    let end = cur.position();
+    let (r, end) = if dribbled(bytes) { let mut cur = Dribble::new(bytes); let r = guarded(|| decode_digital_radar_data(&mut cur)); (r, cur.position()) }
+                   else { let mut cur = Cursor::new(bytes); let r = guarded(|| decode_digital_radar_data(&mut cur)); (r, cur.position()) };
     match r {
         Err(p) => Decoded { out: "panic", hdr: json!({}), prod: json!({}), end, detail: p },
         Ok(Err(e)) => Decoded { out: "err", hdr: json!({}), prod: json!({}), end, detail: format!("{e:?}") },
